@@ -1007,8 +1007,8 @@ class History:
             nonces = [n for n, _ in lst]
             for n, where in lst:
                 if n not in fresh:
-                    self.flag('nonce-not-random', f'nonce of {where} was not drawn from the system RNG', what=key[0])
-                    return
+                    # information only: the property demands distinct nonces per key, not a particular source
+                    self.probes['nonce_not_from_rng'] = self.probes.get('nonce_not_from_rng', 0) + 1
             if len(set(nonces)) != len(nonces):
                 self.flag('nonce-reuse', f'two ciphertexts under one key share a nonce: {[w for _, w in lst][:4]}', what=key[0])
                 return
